@@ -20,7 +20,6 @@ NEED_CLASSES = (
     "egf/acgt/within/fresh", "egf/acgt/beyond/reused", "egf/iupac/within/poisoned",
     "lcs/symmetry", "egf/symmetry",
     "d1/acgt/expect=0", "d1/acgt/expect=1", "d1/acgt/expect=-1", "d1/iupac/expect=1", "d1/ambiguous_position",
-    "diag/banded_model_equal",
 )
 
 
@@ -90,6 +89,9 @@ def main(ctx):
         ctx.add_results(res)
     for need in NEED_CLASSES:
         ctx.expect_vacuity("class " + need, ctx.classes.get(need, 0))
+    # diagnostic only (DESIGN 3.5): answers of the real code that equal / differ from the implementation-shaped model
+    ctx.expect_vacuity("comparisons with the banded model", ctx.classes.get("diag/banded_model_equal", 0)
+                       + ctx.classes.get("diag/banded_model_differs", 0))
     ctx.extra["banded_model_differs_from_code"] = ctx.classes.get("diag/banded_model_differs", 0)
     # T ---------------------------------------------------------------------------------------
     trace = ctx.path("trace.ndjson")
